@@ -108,7 +108,10 @@ def _session(args):
         return {'error': Violation('unexpected-exception', {'exc': r['error'][0], 'config': cfg[0]}, ident, '%s: %s' % r['error'][:2]).to_json(), 'cuts': []}
     fast = cfg[6]
     step = T[cfg[2]]
-    evs = [e for e in r['trace'] if e[0] not in ('candle', 'candles')]
+    # observable events only; every kind used here carries (or directly follows an event that carries) its own clock reading.
+    # Bookkeeping markers of other checks ('step-end', 'active-list', 'c07', 'liq', ...) are not observations of the strategy.
+    KINDS = ('hook', 'submit', 'reject', 'exec', 'exec_done', 'cancel', 'final-call-effect', 'equity')
+    evs = [e for e in r['trace'] if e[0] in KINDS]
 
     def when(e):
         if e[0] == 'hook':
